@@ -45,7 +45,10 @@ impl Exec {
         // one virtual hour per case (and at least one hour after whatever time the previous case reached): the
         // process-global inbound node's window is empty at case start and time never runs backwards
         let hour = 3_600_000_000_000u64;
-        let after_prev = verif_clock::now_ns().map(|t| t + hour).unwrap_or(0);
+        // rounded up to a multiple of 10 s (as T0 is): the generators' offsets (0, 250, 499, 500 ...) then sit where they are meant to,
+        // on and next to bucket boundaries, in every case of a process and not only in its first one (seed C04-f)
+        let ten_s = 10_000_000_000u64;
+        let after_prev = verif_clock::now_ns().map(|t| (t + hour + ten_s - 1) / ten_s * ten_s).unwrap_or(0);
         verif_clock::enable(std::cmp::max(T0_NS + case_no * hour, after_prev));
         sentinel_core::system_metric::verif::set_system_load(0.0);
         sentinel_core::system_metric::verif::set_cpu_usage(0.0);
